@@ -7,9 +7,9 @@ fuzz_target("fz_c11_xml", ["fuzz/fz_c11_xml.cc"] + [f"{REPO}/tools/src/libtools/
 
 PROPS["C11"] = dict(
     parts=[rc("h_c11", quick=dict(cases=24000, procs=8, budget_s=600),
-              thorough=dict(cases=1600000, procs=16, budget_s=1500)),
+              thorough=dict(cases=1200000, procs=16, budget_s=1500)),
            fz("fz_c11_xml", quick=dict(runs=600000, procs=2, max_len=160, budget_s=300),
-              thorough=dict(runs=16000000, procs=8, max_len=256, budget_s=900), dict="corpus/fz_c11_xml/xml.dict")],
+              thorough=dict(runs=12000000, procs=8, max_len=256, budget_s=900), dict="corpus/fz_c11_xml/xml.dict")],
     rule=("options: every calculator description found at run time in /repo/xtp/share/xtp/xml (links into subpackages/ resolved by the harness' own "
           "reader) and in tools/src/tests/DataFiles/optionshandler; user tree = random subset (inclusion 0/5/15/40/80 %) of the declared nodes plus "
           "everything the description makes mandatory, valid values per declared choice type (bool/int/int+/float/float+/enumeration/bracketed "
@@ -31,6 +31,7 @@ PROPS["C11"] = dict(
         "values of section nodes (nodes with children) are not compared, only leaves; sibling order of the resolved tree is not compared (statement speaks of the set of leaves)",
         "literals left open by the documentation are accepted either way: leading '+', '.5', '5.', inf/nan spellings, |exponent| > 280, integers of 19+ digits, '-0' for int+/float+",
         "tools/src/tests/DataFiles/optionshandler/calc_brokenlist.xml is skipped (its root element does not match the file name; it is a deliberately broken description); csg_defaults.xml.in is not an OptionsHandler description (no <options><calc> root, consumed by csg scripts) and is not covered",
+        "fz_c11_xml filters ill-formed documents with its own expat parser before calling LoadFromXML, because LoadFromXML leaks its XML_Parser on every parse error (leak detection is off in this framework; the target ran out of memory after 4*10^5 rejected inputs)",
         "xml values: '\\r' and, inside attribute values, tab/newline are excluded (XML line-end / attribute-value normalisation is done by the parser, not by VOTCA)",
     ],
 )
